@@ -1,7 +1,7 @@
 /-
   sfmodel shortio — `Sf.ShortIo.fwriteLoop` / `freadLoop` under the schedules of harness/shortio.c, and `Sf.CloseOwn.psfClose`.
   stdin, one request per line:
-     w <len> skip=<k> eintr=<e> cap=<c> n=<count | -1>      -> calls=<write () calls> bytes=<bytes that reached the descriptor>
+     w <len> skip=<k> [after=<a>] eintr=<e> cap=<c> n=<count | -1>      -> calls=<write () calls> bytes=<bytes that reached the descriptor>
      r <want> have=<bytes the file holds> skip= eintr= cap= n=   -> calls= bytes=
      close vio=<0|1> keep=<0|1> codec=<ret|-> container=<ret|-> os=<ret>   -> ret=<sf_close> closed=<0|1>
 -/
@@ -14,7 +14,7 @@ namespace ShortIoDriver
 
 def sched (toks : List String) (horizon : Nat) : List ShortIo.Ans :=
   let n := parseIntStr ((kvGet toks "n").getD "0")
-  ShortIo.schedule (kvNat toks "skip" 0) (kvNat toks "eintr" 0) (kvNat toks "cap" 1) (if n < 0 then none else some n.toNat) horizon
+  ShortIo.scheduleAfter (kvNat toks "skip" 0) (kvNat toks "after" 0) (kvNat toks "eintr" 0) (kvNat toks "cap" 1) (if n < 0 then none else some n.toNat) horizon
 
 def optInt (toks : List String) (k : String) : Option Int :=
   match kvGet toks k with
